@@ -1,2 +1,12 @@
 class HarnessError(Exception):
     """The check itself failed (build error, nondeterminism, missing slice): exit 2, never a verdict."""
+
+
+class AppStartFailure(Exception):
+    """fake_trx.Application() raised while being constructed with a documented command line: the code under
+    test cannot start in that configuration.  The runner turns it into a violation (never into exit 2)."""
+
+    def __init__(self, argv, what):
+        super().__init__(list(argv), what)
+        self.argv = list(argv)
+        self.what = what
